@@ -153,7 +153,8 @@ def run_v(features, work, rlimit=100):
                 log('outside Verus subset, body skipped: %s' % ', '.join(sorted(new)))
                 forced |= new
                 continue
-            raise Undecided('verus VIR error (unsupported construct):\n' + d['stderr'][-3000:])
+            files = sorted(set(e['fn'][0] for e in vrun.parse_errors(d['stderr'], idx0) if e['line'] and e['fn'][0] not in ('<wrap>', '?')))
+            raise Undecided('verus VIR error (unsupported construct) in %s:\n' % ', '.join(files) + d['stderr'][-3000:])
         break
     if res.get('encountered-vir-error'):
         raise Undecided('verus VIR error (unsupported construct):\n' + d['stderr'][-3000:])
